@@ -167,3 +167,84 @@ theorem retrieveLoop_eq (l : St) (b : Nat) (hb : 0 < b) :
       exact List.take_append_drop b (l.drop off)
 
 end Vakt.Store
+
+namespace Vakt.Store
+
+def keys (s : St) : List Uid := s.map Prod.fst
+
+theorem lookup_none_iff (u : Uid) (s : St) : lookup u s = none ↔ u ∉ keys s := by
+  induction s with
+  | nil => simp [lookup, keys]
+  | cons x rest ih =>
+    obtain ⟨k, v⟩ := x
+    simp only [lookup, keys, List.map_cons, List.mem_cons, not_or]
+    by_cases hk : k = u
+    · subst hk; simp
+    · have : ¬ u = k := fun e => hk e.symm
+      simp only [hk, ↓reduceIte, this, not_false_eq_true, true_and]
+      exact ih
+
+theorem distinct_iff_nodup (s : St) : Distinct s ↔ (keys s).Nodup := by
+  induction s with
+  | nil => simp [Distinct, keys]
+  | cons x rest ih =>
+    obtain ⟨k, v⟩ := x
+    simp only [Distinct, keys, List.map_cons, List.nodup_cons]
+    rw [lookup_none_iff, ih]
+    rfl
+
+theorem distinct_perm {s s' : St} (hp : s.Perm s') (hd : Distinct s) : Distinct s' := by
+  rw [distinct_iff_nodup] at hd ⊢
+  exact (List.Perm.nodup_iff (List.Perm.map Prod.fst hp)).1 hd
+
+theorem lookup_some_iff_mem (u : Uid) (p : Pol) (s : St) (hd : Distinct s) :
+    lookup u s = some p ↔ (u, p) ∈ s := by
+  induction s with
+  | nil => simp [lookup]
+  | cons x rest ih =>
+    obtain ⟨k, v⟩ := x
+    simp only [lookup, List.mem_cons, Prod.mk.injEq]
+    by_cases hk : k = u
+    · subst hk
+      simp only [↓reduceIte, Option.some.injEq, true_and]
+      constructor
+      · intro h; exact Or.inl h.symm
+      · rintro (h | h)
+        · exact h.symm
+        · have := (lookup_none_iff k rest).1 hd.1
+          exact absurd (List.mem_map.2 ⟨(k, p), h, rfl⟩) this
+    · have : ¬ u = k := fun e => hk e.symm
+      simp only [hk, ↓reduceIte, this, false_and, false_or]
+      exact ih hd.2
+
+theorem lookup_perm (u : Uid) {s s' : St} (hp : s.Perm s') (hd : Distinct s) : lookup u s = lookup u s' := by
+  have hd' := distinct_perm hp hd
+  cases h : lookup u s with
+  | none =>
+    have := (lookup_none_iff u s).1 h
+    have h' : u ∉ keys s' := fun hm => this ((List.Perm.mem_iff (List.Perm.map Prod.fst hp)).2 hm)
+    exact ((lookup_none_iff u s').2 h').symm
+  | some p =>
+    have := (lookup_some_iff_mem u p s hd).1 h
+    exact ((lookup_some_iff_mem u p s' hd').2 (hp.mem_iff.1 this)).symm
+
+/-- two maps with the same bindings list the same pairs, up to order -/
+theorem perm_of_same_lookup (s s' : St) (hd : Distinct s) (hd' : Distinct s')
+    (h : ∀ u, lookup u s = lookup u s') : s.Perm s' := by
+  have nd : ∀ t : St, Distinct t → t.Nodup := by
+    intro t
+    induction t with
+    | nil => intro _; exact List.nodup_nil
+    | cons x rest ih =>
+      obtain ⟨k, v⟩ := x
+      intro hdt
+      rw [List.nodup_cons]
+      refine ⟨fun hm => ?_, ih hdt.2⟩
+      exact (lookup_none_iff k rest).1 hdt.1 (List.mem_map.2 ⟨(k, v), hm, rfl⟩)
+  have n1 : s.Nodup := nd s hd
+  have n2 : s'.Nodup := nd s' hd'
+  rw [List.perm_ext_iff_of_nodup n1 n2]
+  rintro ⟨u, p⟩
+  rw [← lookup_some_iff_mem u p s hd, ← lookup_some_iff_mem u p s' hd', h u]
+
+end Vakt.Store
